@@ -7,6 +7,6 @@ trap 'git -C /repo checkout -- . ; git -C /repo clean -fdq -- cglue cglue-gen cg
 git -C /repo apply $d/patch.diff
 git -C /repo diff --stat | tail -1
 for p in $(echo $props | tr , ' '); do
-  timeout 900 /verif/check $p --tier quick > /tmp/seeded-out.txt 2>&1; rc=$?
+  timeout ${SEEDED_TIMEOUT:-900} /verif/check $p --tier quick > /tmp/seeded-out.txt 2>&1; rc=$?
   echo "== $p exit=$rc"; grep -E "^VIOLATION|^HARNESS|^#   class|^#   [a-z]|KNOWN" /tmp/seeded-out.txt | grep -v "KNOWN-FINDING: property=C07" | cut -c1-260 | head -6
 done
